@@ -246,8 +246,44 @@ pub fn run_entscan(tier: &str, seed: u64, out: &mut Out) {
         }
         texts.push(s);
     }
+    let render = tier.ends_with("-render");
+    if render {
+        texts.truncate(fixed.len() + 600);
+        texts.extend(["t&#9;t", "&#9;x&#09;y&#x9;", "&#7;&#65;", "a&#1;", "&#8;&#x1f;z"].iter().map(|s| s.to_string()));
+    }
     for t in texts {
-        let src = format!("<v a=\"{}\"/>", t);
+        let src = format!("<v a=\"{}\">[{}]</v>", t, t);
+        if render {
+            // whole pipeline: the value the runtime receives for the attribute and the text node
+            if t.contains('<') {
+                continue;
+            }
+            let mut g = TmplGroup::new();
+            g.add_tmpl("p", &src);
+            let bundle = g.get_tmpl_gen_object_groups().unwrap_or_default();
+            let mut named = vec![];
+            let b: Vec<char> = t.chars().collect();
+            let mut i = 0;
+            while i < b.len() {
+                if b[i] == '&' {
+                    let mut j = i + 1;
+                    while j < b.len() && b[j].is_ascii_alphanumeric() {
+                        j += 1;
+                    }
+                    if j < b.len() && b[j] == ';' && j > i + 1 {
+                        let e: String = b[i..=j].iter().collect();
+                        if let Some(d) = hooks::entities_decode(&e) {
+                            named.push(format!("{}={}", enc(&e), enc(&d)));
+                        }
+                    }
+                }
+                i += 1;
+            }
+            let j = serde_json::json!({"kind": "entrender", "text": t, "src": src, "bundle": bundle,
+                                       "model_cmd": format!("entscan\t{}\t{}", named.join("+"), enc(&t))});
+            out.raw(&j.to_string());
+            continue;
+        }
         let (tree, _) = glass_easel_template_compiler::parse::parse("p", &src);
         let got = match tree.content.get(0) {
             Some(Node::Element(el)) => match &el.kind {
